@@ -78,6 +78,7 @@ def _transform_cut_wires(
             new_circuit.compose(
                 other=instructions.operation,
                 qubits=[mapping[index] for index in gate_index],
+                clbits=list(instructions.clbits),
                 inplace=True,
             )
 
